@@ -1,13 +1,74 @@
 """Shard replay work over processes (each a fork of a parent that imported the tree's code)."""
 import multiprocessing
 import os
+import signal
+import traceback
 
 NPROC = int(os.environ.get('VERIF_NPROC', '16'))
+# a chunk of replay work that is still INSIDE the implementation after this many seconds counts as a hang of the implementation
+CHUNK_LIMIT_S = int(os.environ.get('VERIF_CHUNK_LIMIT_S', '2400'))
+
+
+class ImplementationFault(Exception):
+    """The implementation raised, or did not return, at a place where the harness expects neither (it only calls it on inputs the
+    specification defines). Reported as a VIOLATION by harness/main.py, not as a failure of the machinery."""
+
+
+def _repo():
+    from . import impl
+    return os.path.realpath(impl.REPO)
+
+
+def innermost_in_repo(tb):
+    """Is the frame that raised inside the implementation tree?"""
+    last = None
+    while tb is not None:
+        last = tb
+        tb = tb.tb_next
+    return last is not None and os.path.realpath(last.tb_frame.f_code.co_filename).startswith(_repo() + os.sep)
+
+
+def remote_in_repo(exc):
+    """An exception re-raised by multiprocessing carries the worker's traceback as text (RemoteTraceback): was its innermost frame in the tree?"""
+    import re
+    cause = getattr(exc, '__cause__', None)
+    if cause is None or cause.__class__.__name__ != 'RemoteTraceback':
+        return False
+    files = re.findall(r'File "([^"]+)", line', str(cause))
+    return bool(files) and os.path.realpath(files[-1]).startswith(_repo() + os.sep)
 
 
 def chunks(seq, n):
     for i in range(0, len(seq), n):
         yield seq[i:i + n]
+
+
+class _Guard(object):
+    def __init__(self, func):
+        self.func = func
+
+    def __call__(self, part):
+        def on_alarm(signum, frame):
+            f = frame
+            while f is not None:
+                if os.path.realpath(f.f_code.co_filename).startswith(_repo() + os.sep):
+                    raise ImplementationFault('no return from the implementation after %d s; innermost implementation frame: %s:%d %s' % (
+                        CHUNK_LIMIT_S, f.f_code.co_filename, f.f_lineno, f.f_code.co_name))
+                f = f.f_back
+            raise TimeoutError('replay chunk exceeded %d s outside the implementation' % CHUNK_LIMIT_S)
+        old = signal.signal(signal.SIGALRM, on_alarm)
+        signal.setitimer(signal.ITIMER_REAL, CHUNK_LIMIT_S)
+        try:
+            return ('ok', self.func(part))
+        except ImplementationFault as e:
+            return ('fault', str(e))
+        except Exception as e:  # noqa
+            if innermost_in_repo(e.__traceback__):
+                return ('fault', 'unexpected exception from the implementation:\n' + traceback.format_exc()[-3000:])
+            raise
+        finally:
+            signal.setitimer(signal.ITIMER_REAL, 0)
+            signal.signal(signal.SIGALRM, old)
 
 
 def pmap(func, items, chunk=2000, nproc=None):
@@ -19,6 +80,9 @@ def pmap(func, items, chunk=2000, nproc=None):
     ctx = multiprocessing.get_context('fork')
     with ctx.Pool(nproc) as pool:
         out = []
-        for part in pool.imap(func, list(chunks(items, chunk))):
+        for status, part in pool.imap(_Guard(func), list(chunks(items, chunk))):
+            if status == 'fault':
+                pool.terminate()
+                raise ImplementationFault(part)
             out.extend(part)
     return out
